@@ -66,6 +66,23 @@ claim('C13',
       'edge dominance + evaluated argparse/section tables',
       'DESIGN.md section 4 C13')
 
+claim('C15',
+      'Decides the property essentially whole: the 256-row table is '
+      'evaluated from the source and checked exhaustively (distinct, UTF-8 '
+      'encodable, prefix-free over all 65 280 ordered pairs, width table '
+      'consistent), and the two converters are shown to be the in-order '
+      'table concatenation and the greedy width-directed parse; with a '
+      'prefix-free code the parse is unique, so the round trip is the '
+      'identity on every byte string.',
+      'Decided: table properties (exhaustive over the finite table), '
+      'converter structure, use by the .p8 reader/writer with UTF-8. '
+      'Trusted: the constant evaluator, Python str semantics, the '
+      'unique-decodability argument. Converters rewritten in another idiom '
+      'yield an analysis error (exit 2), not a verdict.',
+      'static analysis: constant evaluation of the table + exhaustive table '
+      'checks + structural dataflow check of the two converters',
+      'DESIGN.md section 4 C15')
+
 
 def main():
     props = []
